@@ -699,7 +699,7 @@ func ExpandAndReturnIndexNames(indexNameIn string, orgid int64, isElastic bool, 
 				if isIndexExcluded(indexName) {
 					continue
 				}
-				regexStr := "^" + strings.ReplaceAll(indexName, "*", `.*`) + "$"
+				regexStr := IndexPatternToRegexStr(indexName)
 				indexRegExp, err := regexp.Compile(regexStr)
 				if err != nil {
 					log.Infof("ExpandAndReturnIndexNames: Error compiling regexStr=%v, Error=%v", regexStr, err)
@@ -756,6 +756,18 @@ func ExpandAndReturnIndexNames(indexNameIn string, orgid int64, isElastic bool, 
 		slices.Sort(finalResults)
 		return finalResults
 	}
+}
+
+// IndexPatternToRegexStr translates an index pattern into an anchored regular
+// expression in which only "*" is special (it matches any sequence of characters);
+// every other character of the pattern, including regex metacharacters such as
+// "." or "+", matches only itself.
+func IndexPatternToRegexStr(indexPattern string) string {
+	parts := strings.Split(indexPattern, "*")
+	for i, part := range parts {
+		parts[i] = regexp.QuoteMeta(part)
+	}
+	return "(?s)^" + strings.Join(parts, ".*") + "$"
 }
 
 func filterOutUnauthorized(indexes []string, ctx *fasthttp.RequestCtx) []string {
